@@ -8,6 +8,7 @@ CONSTANTS
   Small = TRUE
   Avoid = FALSE
   SimK = 0
+  AccW = TRUE
   Acts = {"xslice", "slice", "ldel"}
 CONSTRAINT LevelBound
 VIEW view
